@@ -53,11 +53,16 @@ def oracle_linear(inp):
     rng = np.random.default_rng(inp['fseed'])
     shape = tuple(inp['shape'])
     u, v = W.cfield(rng, shape), W.cfield(rng, shape)
+    ut, vt = u, v
+    if inp.get('dtype') and inp['api'] in ('torch', 'numpy'):
+        # u and v handed over in another documented form (real, integer, double precision); the combination a u + b v stays complex
+        ut, vt = W.typed(u, inp['api'], inp['dtype']), W.typed(v, inp['api'], inp['dtype'])
+        u, v = W.to_np(ut).astype(complex), W.to_np(vt).astype(complex)
     a, b = complex(*rng.standard_normal(2)), complex(*rng.standard_normal(2))
     if inp.get('special') == 'a0': a = 0j
     P = make_P(inp)
-    tol = TOL['numpy' if (inp['api'] == 'numpy' and inp['method'] != 'Rayleigh-Sommerfeld') else 'torch']   # numpy Rayleigh-Sommerfeld accumulates in complex64
-    pu, pv = W.to_np(P(u)), W.to_np(P(v))
+    tol = TOL['numpy' if (W.tol_key(inp) == 'numpy' and inp['method'] != 'Rayleigh-Sommerfeld') else 'torch']   # numpy Rayleigh-Sommerfeld accumulates in complex64
+    pu, pv = W.to_np(P(ut)), W.to_np(P(vt))
     comb = W.to_np(P(a * u + b * v))
     ref = a * pu + b * pv
     scale = max(1e-30, np.abs(pu).max(), np.abs(pv).max())
@@ -81,7 +86,7 @@ def oracle_shift(inp):
     u = W.cfield(rng, shape)
     P = make_P(inp)
     s, t = inp['shift']
-    tol = TOL['numpy' if inp['api'] == 'numpy' else 'torch']
+    tol = TOL[W.tol_key(inp)]
     a = W.to_np(P(np.roll(u, (s, t), axis=(-2, -1))))
     b = np.roll(W.to_np(P(u)), (s, t), axis=(-2, -1))
     e = float(np.abs(a - b).max() / max(1e-30, np.abs(b).max()))
@@ -114,7 +119,7 @@ def gen_inputs(ctx, n):
         lam = rng.uniform(0.4, 0.7); dx = lam * rng.uniform(0.9, 5.0); z = rng.choice([-1, 1]) * rng.uniform(2.0, 30.0)   # 0.9 / 1.2 >= 1/sqrt 2: valid for the propagator's second wavelength too
         for m in T_METHODS:
             shp = ([2] + shape) if (i % 3 == 0 and m not in ('Fraunhofer',)) else shape
-            base = {'api': 'torch', 'method': m, 'shape': shp, 'lam': lam, 'dx': dx, 'z': z, 'fseed': rng.randrange(10 ** 6), 'aperture': i % 2 == 1 and m != 'Fraunhofer'}
+            base = {'api': 'torch', 'method': m, 'shape': shp, 'lam': lam, 'dx': dx, 'z': z, 'fseed': rng.randrange(10 ** 6), 'aperture': i % 2 == 1 and m != 'Fraunhofer', 'dtype': W.DTYPES['torch'][(i + len(m)) % 5]}
             out.append(('linear', dict(base, special='a0' if i % 5 == 4 else None)))
             if m in ('Impulse Response Fresnel', 'Seperable Impulse Response Fresnel') and max(shape) <= 8:
                 out.append(('linear', dict(base, shape=shape, scale=2 + (i % 2), aperture=False, fseed=rng.randrange(10 ** 6))))
@@ -123,7 +128,7 @@ def gen_inputs(ctx, n):
         for m in N_METHODS:
             if m == 'Rayleigh-Sommerfeld' and (i % 4 or shape[0] * shape[1] > 40): continue
             shp = shape if m != 'Rayleigh-Sommerfeld' else [shape[0], shape[0]]
-            base = {'api': 'numpy', 'method': m, 'shape': shp, 'lam': lam, 'dx': dx, 'z': z, 'fseed': rng.randrange(10 ** 6)}
+            base = {'api': 'numpy', 'method': m, 'shape': shp, 'lam': lam, 'dx': dx, 'z': z, 'fseed': rng.randrange(10 ** 6), 'dtype': W.DTYPES['numpy'][(i + len(m)) % 5]}
             out.append(('linear', base))
             if m in ('Angular Spectrum', 'Bandlimited Angular Spectrum', 'Transfer Function Fresnel', 'Impulse Response Fresnel'):
                 out.append(('shift', dict(base, shift=[rng.randint(-3, 3), rng.randint(-3, 3)])))
